@@ -501,6 +501,13 @@ func ruleTabShim(c *Ctx, r *R) {
 				continue
 			}
 			if _, exc := shimExceptions[sh.Key]; exc {
+				// delegating to the writer variant does not change what the script-visible function
+				// returns: the registered result count is that of the function the key names
+				if named := c.importedFunc(sh.Pkg, sh.Name); named != nil {
+					ns := named.Type().(*types.Signature)
+					r.check(int(rets) == ns.Results().Len(), "rets "+sh.Key, pos, fmt.Sprintf("rets %d = results of %s.%s", rets, sh.Pkg, sh.Name),
+						fmt.Sprintf("shim %s registers %d results but %s.%s returns %d: `n, err := %s(..)` (valid Go) stops with `incorrect returns`", sh.Key, rets, sh.Pkg, sh.Name, ns.Results().Len(), sh.Key))
+				}
 				continue
 			}
 			sig := fn.Type().(*types.Signature)
@@ -872,4 +879,16 @@ func (c *Ctx) singleDefIn(fd *ast.FuncDecl, o types.Object) ast.Expr {
 		return nil
 	}
 	return out
+}
+
+// importedFunc: the function pkgPath.name of a package this package imports.
+func (c *Ctx) importedFunc(pkgPath, name string) *types.Func {
+	for _, imp := range c.Pkg.Types.Imports() {
+		if imp.Path() == pkgPath {
+			if f, ok := imp.Scope().Lookup(name).(*types.Func); ok {
+				return f
+			}
+		}
+	}
+	return nil
 }
